@@ -303,3 +303,838 @@ Qed.
 
 Lemma spans_range r i : spans r i = true <-> rbegin r <= i /\ i < rend r.
 Proof. unfold spans. rewrite andb_true_iff, Nat.leb_le, Nat.ltb_lt. tauto. Qed.
+
+Lemma wf_read_span n r : wf_read n r = true -> rbegin r < rend r /\ rend r <= n.
+Proof.
+  intro H. apply wf_read_spec in H. destruct H as (H2 & Hinc & Hlt).
+  destruct r as [|x [|y tl]]; simpl in H2; try lia.
+  unfold rbegin, rend. cbn [hd].
+  assert (Hl : In (last (x :: y :: tl) 0) (y :: tl)).
+  { change (last (x :: y :: tl) 0) with (last (y :: tl) 0).
+    destruct (exists_last (l := y :: tl)) as [l' [a E]]; [congruence|].
+    rewrite E. rewrite last_last. apply in_or_app. right. left. reflexivity. }
+  pose proof (increasing_lt _ x _ (y :: tl) eq_refl Hinc Hl) as H1.
+  assert (H3 : last (x :: y :: tl) 0 < n) by (apply Hlt; right; exact Hl).
+  lia.
+Qed.
+
+Lemma set_diff_nil l : set_diff l [] = l.
+Proof. unfold set_diff. induction l as [|a l IH]; simpl; [reflexivity|]. f_equal. exact IH. Qed.
+
+Lemma covers_new_nil r : r <> [] -> covers_new [] r = true.
+Proof. destruct r as [|x r]; [congruence|]. intros _. reflexivity. Qed.
+
+(* ---------------------------------------------------------------------------------------------- *)
+(* 4. the state invariant and the three decisions                                                  *)
+
+Section Invariant.
+Variables (reads : list read) (n k : nat).
+Hypothesis Hwf : wf_reads n reads = true.
+(* D: the reads that take part in the current phase (the preferred ones / all of them) *)
+Variable D : nat -> Prop.
+Hypothesis HD : forall r, D r -> r < length reads.
+
+Definition span_b (ri : nat) : nat := rbegin (get_read reads ri).
+Definition span_e (ri : nat) : nat := rend (get_read reads ri).
+(* read ri was / would be rejected: the monitor shows >= k somewhere on its span *)
+Definition blockedP (c : covmon) (ri : nat) : Prop := k <= max_coverage_in_range c (span_b ri) (span_e ri).
+
+Record GInv (x : bool) (c : covmon) (sl ud : list nat) : Prop := {
+  gi_len : length c = n;
+  gi_cap : forall i, cv c i <= k;
+  gi_cnt : forall i, sc reads sl i <= cv c i;
+  gi_nd_sel : NoDup sl;
+  gi_nd_und : NoDup ud;
+  gi_dom : forall r, In r sl \/ In r ud -> D r;
+  gi_dec : forall r, D r -> In r sl \/ In r ud \/ blockedP c r;
+  gi_exact : x = true -> (forall i, sc reads sl i = cv c i) /\ (forall r, In r sl -> ~ In r ud) }.
+
+Lemma span_wf ri : ri < length reads -> span_b ri < span_e ri /\ span_e ri <= n.
+Proof. intro H. apply wf_read_span. apply wf_reads_get; assumption. Qed.
+
+Lemma dec_violates x c sl ud ud' ri :
+  GInv x c sl ud -> blockedP c ri -> NoDup ud' ->
+  (forall y, In y ud' <-> In y ud /\ y <> ri) -> GInv x c sl ud'.
+Proof.
+  intros G B ND E. destruct G. constructor; try assumption.
+  - intros r [H | H]; apply gi_dom0; [left; exact H | right; apply E in H; tauto].
+  - intros r Hr. destruct (gi_dec0 r Hr) as [H | [H | H]]; auto.
+    destruct (Nat.eq_dec r ri) as [-> | Hne]; [auto|]. right. left. apply E. tauto.
+  - intro Hx. destruct (gi_exact0 Hx) as [H1 H2]. split; [exact H1|].
+    intros r Hr Hin. apply E in Hin. apply (H2 r Hr). tauto.
+Qed.
+
+Lemma dec_selected x c sl ud ud' ri :
+  GInv x c sl ud -> In ri ud -> max_coverage_in_range c (span_b ri) (span_e ri) < k -> NoDup ud' ->
+  (forall y, In y ud' <-> In y ud /\ y <> ri) ->
+  GInv x (add_read c (span_b ri) (span_e ri)) (set_add ri sl) ud'.
+Proof.
+  intros G Hin Hlt ND E. destruct G.
+  assert (Dri : D ri) by (apply gi_dom0; right; exact Hin).
+  destruct (span_wf ri (HD ri Dri)) as [Hbe Hen].
+  assert (Hsp : forall i, spans (get_read reads ri) i = true ->
+                          (span_b ri <=? i) && (i <? span_e ri) && (i <? length c) = true).
+  { intros i Hs. apply spans_range in Hs. fold (span_b ri) (span_e ri) in Hs.
+    rewrite !andb_true_iff, Nat.leb_le, !Nat.ltb_lt. lia. }
+  constructor.
+  - rewrite add_read_length. exact gi_len0.
+  - intro i. rewrite add_read_cv.
+    destruct ((span_b ri <=? i) && (i <? span_e ri) && (i <? length c)) eqn:Er.
+    + rewrite !andb_true_iff, Nat.leb_le, !Nat.ltb_lt in Er.
+      pose proof (max_range_lt c _ _ k i Hlt (proj1 (proj1 Er)) (proj2 (proj1 Er))). lia.
+    + pose proof (gi_cap0 i). lia.
+  - intro i. rewrite add_read_cv, sc_set_add. pose proof (gi_cnt0 i) as Hc.
+    destruct (mem ri sl); [lia|].
+    destruct (spans (get_read reads ri) i) eqn:Es; [|lia].
+    rewrite (Hsp i Es). lia.
+  - apply set_add_NoDup. exact gi_nd_sel0.
+  - exact ND.
+  - intros r [H | H].
+    + apply set_add_In in H. destruct H as [-> | H]; [exact Dri | apply gi_dom0; left; exact H].
+    + apply gi_dom0. right. apply E in H. tauto.
+  - intros r Hr. destruct (Nat.eq_dec r ri) as [-> | Hne].
+    + left. apply set_add_In. left. reflexivity.
+    + destruct (gi_dec0 r Hr) as [H | [H | H]].
+      * left. apply set_add_In. right. exact H.
+      * right. left. apply E. tauto.
+      * right. right. unfold blockedP in *.
+        pose proof (max_range_mono c (add_read c (span_b ri) (span_e ri)) (span_b r) (span_e r)
+                      (eq_sym (add_read_length _ _ _)) (add_read_ge c _ _)). lia.
+  - intro Hx. destruct (gi_exact0 Hx) as [H1 H2].
+    assert (Hnot : ~ In ri sl) by (intro H; apply (H2 ri H Hin)).
+    apply mem_false in Hnot. split.
+    + intro i. rewrite add_read_cv, sc_set_add, Hnot, H1.
+      destruct (spans (get_read reads ri) i) eqn:Es.
+      * rewrite (Hsp i Es). reflexivity.
+      * unfold spans in Es. fold (span_b ri) (span_e ri) in Es. rewrite Es. reflexivity.
+    + intros r Hr Hu. apply E in Hu. apply set_add_In in Hr. destruct Hr as [-> | Hr]; [tauto|].
+      apply (H2 r Hr). tauto.
+Qed.
+
+(* ---- the slice loop ------------------------------------------------------------------------- *)
+Variables (sl0 ud0 : list nat).
+
+Definition eff_sel (ss : slice_st) : list nat := set_union sl0 (s_in ss).
+Definition eff_und (ss : slice_st) : list nat := set_diff (set_diff ud0 (s_in ss)) (s_viol ss).
+Definition SInv (x : bool) (ss : slice_st) : Prop := GInv x (s_cov ss) (eff_sel ss) (eff_und ss).
+
+Lemma eff_und_In ss y : In y (eff_und ss) <-> In y ud0 /\ ~ In y (s_in ss) /\ ~ In y (s_viol ss).
+Proof. unfold eff_und. rewrite !set_diff_In. tauto. Qed.
+
+Lemma eff_und_NoDup ss : NoDup ud0 -> NoDup (eff_und ss).
+Proof. intro H. unfold eff_und. apply set_diff_NoDup, set_diff_NoDup. exact H. Qed.
+
+Lemma slice_step_inv x ss ri ss' d :
+  SInv x ss -> NoDup ud0 -> In ri ud0 -> ~ In ri (s_in ss) -> ~ In ri (s_viol ss) ->
+  slice_step reads k ss ri = (ss', d) ->
+  SInv x ss' /\
+  (forall y, In y (s_in ss) -> In y (s_in ss')) /\ (forall y, In y (s_viol ss) -> In y (s_viol ss')) /\
+  (forall y, In y (s_in ss') \/ In y (s_viol ss') -> y = ri \/ In y (s_in ss) \/ In y (s_viol ss)) /\
+  (d <> Skipped -> In ri (s_in ss') \/ In ri (s_viol ss')).
+Proof.
+  intros G ND Hu Hni Hnv Hs. unfold slice_step in Hs. fold (span_b ri) (span_e ri) in Hs.
+  assert (Hin : In ri (eff_und ss)) by (apply eff_und_In; tauto).
+  destruct (k <=? max_coverage_in_range (s_cov ss) (span_b ri) (span_e ri)) eqn:Ek.
+  - apply Nat.leb_le in Ek. injection Hs as <- <-. cbn [s_cov s_in s_viol s_covered].
+    split; [|split; [|split; [|split]]].
+    + unfold SInv. cbn [s_cov]. unfold eff_sel. cbn [s_in].
+      apply (dec_violates x _ _ (eff_und ss) _ ri G Ek).
+      * apply eff_und_NoDup. exact ND.
+      * intro y. rewrite !eff_und_In. cbn [s_in s_viol]. rewrite set_add_In. tauto.
+    + auto.
+    + intros y H. apply set_add_In. auto.
+    + intros y [H | H]; [auto|]. apply set_add_In in H. tauto.
+    + intros _. right. apply set_add_In. auto.
+  - apply Nat.leb_gt in Ek. destruct (covers_new (s_covered ss) (get_read reads ri)) eqn:Ec.
+    + injection Hs as <- <-. cbn [s_cov s_in s_viol s_covered].
+      split; [|split; [|split; [|split]]].
+      * unfold SInv. cbn [s_cov]. unfold eff_sel. cbn [s_in]. rewrite set_union_set_add.
+        apply (dec_selected x _ _ (eff_und ss) _ ri G Hin Ek).
+        -- apply eff_und_NoDup. exact ND.
+        -- intro y. rewrite !eff_und_In. cbn [s_in s_viol]. rewrite set_add_In. tauto.
+      * intros y H. apply set_add_In. auto.
+      * auto.
+      * intros y [H | H]; [|auto]. apply set_add_In in H. tauto.
+      * intros _. left. apply set_add_In. auto.
+    + injection Hs as <- <-. split; [exact G|]. split; [auto|]. split; [auto|]. split; [tauto|congruence].
+Qed.
+
+Lemma slice_run_inv x : forall order ss ss' ds,
+  SInv x ss -> NoDup ud0 -> NoDup order ->
+  (forall y, In y order -> In y ud0 /\ ~ In y (s_in ss) /\ ~ In y (s_viol ss)) ->
+  slice_run reads k ss order = (ss', ds) ->
+  SInv x ss' /\
+  (forall y, In y (s_in ss) -> In y (s_in ss')) /\ (forall y, In y (s_viol ss) -> In y (s_viol ss')) /\
+  (forall y, In y (s_in ss') \/ In y (s_viol ss') -> In y order \/ In y (s_in ss) \/ In y (s_viol ss)).
+Proof.
+  induction order as [|ri rest IH]; intros ss ss' ds G ND NDo Hord Hr; simpl in Hr.
+  - injection Hr as <- <-. split; [exact G|]. split; [auto|]. split; [auto|]. tauto.
+  - destruct (slice_step reads k ss ri) as [ss1 d] eqn:Es.
+    destruct (slice_run reads k ss1 rest) as [ss2 ds2] eqn:Er.
+    injection Hr as <- <-.
+    destruct (Hord ri (or_introl eq_refl)) as (Hu & Hni & Hnv).
+    destruct (slice_step_inv x ss ri ss1 d G ND Hu Hni Hnv Es) as (G1 & M1 & M2 & M3 & _).
+    inversion NDo as [|a l Hnotin NDrest]; subst.
+    assert (Hord' : forall y, In y rest -> In y ud0 /\ ~ In y (s_in ss1) /\ ~ In y (s_viol ss1)).
+    { intros y Hy. destruct (Hord y (or_intror Hy)) as (H1 & H2 & H3).
+      split; [exact H1|].
+      assert (Hne : y <> ri) by (intros ->; apply Hnotin; exact Hy).
+      split; intro H; destruct (M3 y) as [E | [E | E]]; auto. }
+    destruct (IH ss1 ss2 ds2 G1 ND NDrest Hord' Er) as (G2 & N1 & N2 & N3).
+    split; [exact G2|]. split; [auto|]. split; [auto|].
+    intros y Hy. destruct (N3 y Hy) as [H | H].
+    + left. right. exact H.
+    + destruct (M3 y H) as [-> | H']; [left; left; reflexivity | right; exact H'].
+Qed.
+
+(* the first pop of a slice is decided (it sees an empty already_covered set) *)
+Lemma slice_run_first x ri rest ss ss' ds :
+  SInv x ss -> NoDup ud0 -> NoDup (ri :: rest) ->
+  (forall y, In y (ri :: rest) -> In y ud0 /\ ~ In y (s_in ss) /\ ~ In y (s_viol ss)) ->
+  s_covered ss = [] -> D ri ->
+  slice_run reads k ss (ri :: rest) = (ss', ds) ->
+  In ri (s_in ss') \/ In ri (s_viol ss').
+Proof.
+  intros G ND NDo Hord Hc Dri Hr. simpl in Hr.
+  destruct (slice_step reads k ss ri) as [ss1 d] eqn:Es.
+  destruct (slice_run reads k ss1 rest) as [ss2 ds2] eqn:Er.
+  injection Hr as <- <-.
+  destruct (Hord ri (or_introl eq_refl)) as (Hu & Hni & Hnv).
+  destruct (slice_step_inv x ss ri ss1 d G ND Hu Hni Hnv Es) as (G1 & M1 & M2 & M3 & M4).
+  assert (Hd : d <> Skipped).
+  { unfold slice_step in Es. destruct (k <=? _); [injection Es as _ <-; congruence|].
+    rewrite Hc in Es. rewrite covers_new_nil in Es; [injection Es as _ <-; congruence|].
+    pose proof (wf_reads_get n reads ri Hwf (HD ri Dri)) as W. apply wf_read_spec in W.
+    destruct (get_read reads ri); simpl in W; [lia | congruence]. }
+  inversion NDo as [|a l Hnotin NDrest]; subst.
+  assert (Hord' : forall y, In y rest -> In y ud0 /\ ~ In y (s_in ss1) /\ ~ In y (s_viol ss1)).
+  { intros y Hy. destruct (Hord y (or_intror Hy)) as (H1 & H2 & H3).
+    split; [exact H1|].
+    assert (Hne : y <> ri) by (intros ->; apply Hnotin; exact Hy).
+    split; intro H; destruct (M3 y) as [E | [E | E]]; auto. }
+  destruct (slice_run_inv x rest ss1 ss2 ds2 G1 ND NDrest Hord' Er) as (_ & N1 & N2 & _).
+  destruct (M4 Hd) as [H | H]; auto.
+Qed.
+
+End Invariant.
+
+(* ---------------------------------------------------------------------------------------------- *)
+(* 5. the component finder never fails on well-formed reads                                        *)
+
+Section CF.
+Variables (reads : list read) (n : nat).
+Hypothesis Hwf : wf_reads n reads = true.
+
+Definition CFok (cf : uf) : Prop := (exists ms, Inv ms cf) /\ dom cf = seq 0 n.
+
+Lemma CFok_init : CFok (uf_init (seq 0 n)).
+Proof. split; [exists []; apply Inv_init | reflexivity]. Qed.
+
+Lemma CFok_in_dom cf v : CFok cf -> v < n -> in_dom cf v = true.
+Proof. intros [_ Hd] H. apply in_dom_iff. rewrite Hd. apply in_seq. lia. Qed.
+
+Lemma fold_merge_ok x : forall tl cf, CFok cf -> x < n -> (forall y, In y tl -> x < y /\ y < n) ->
+  exists cf', fold_left (fun acc y => match acc with inl s => merge s x y | inr e => inr e end) tl (inl cf)
+              = inl cf' /\ CFok cf'.
+Proof.
+  induction tl as [|y tl IH]; intros cf C Hx Hy; simpl.
+  - exists cf. split; [reflexivity | exact C].
+  - destruct (Hy y (or_introl eq_refl)) as [Hxy Hyn].
+    destruct C as [[ms I] Hd].
+    assert (Dx : in_dom cf x = true) by (apply CFok_in_dom; [split; [exists ms; exact I | exact Hd] | exact Hx]).
+    assert (Dy : in_dom cf y = true) by (apply CFok_in_dom; [split; [exists ms; exact I | exact Hd] | exact Hyn]).
+    destruct (merge_ok ms cf x y I ltac:(lia) Dx Dy) as (s' & Hm & Hd' & I').
+    rewrite Hm. apply IH.
+    + split; [exists (ms ++ [(x, y)]); exact I' | congruence].
+    + exact Hx.
+    + intros z Hz. apply Hy. right. exact Hz.
+Qed.
+
+Lemma merge_read_ok cf r : CFok cf -> wf_read n r = true -> exists cf', merge_read cf r = inl cf' /\ CFok cf'.
+Proof.
+  intros C W. apply wf_read_spec in W. destruct W as (_ & Hinc & Hlt).
+  destruct r as [|x tl]; simpl.
+  - exists cf. split; [reflexivity | exact C].
+  - apply fold_merge_ok; [exact C | apply Hlt; left; reflexivity |].
+    intros y Hy. split; [apply (increasing_lt _ x y tl eq_refl Hinc Hy) | apply Hlt; right; exact Hy].
+Qed.
+
+Lemma merge_reads_ok : forall ris cf, CFok cf -> (forall ri, In ri ris -> ri < length reads) ->
+  exists cf', merge_reads reads cf ris = inl cf' /\ CFok cf'.
+Proof.
+  unfold merge_reads. induction ris as [|ri ris IH]; intros cf C Hb; simpl.
+  - exists cf. split; [reflexivity | exact C].
+  - destruct (merge_read_ok cf (get_read reads ri) C) as (cf1 & E & C1).
+    { apply wf_reads_get; [exact Hwf | apply Hb; left; reflexivity]. }
+    rewrite E. apply IH; [exact C1|]. intros r Hr. apply Hb. right. exact Hr.
+Qed.
+
+Lemma find_blocks_ok : forall r cf blocks, CFok cf -> (forall v, In v r -> v < n) ->
+  exists cf' bl, find_blocks cf r blocks = inl (cf', bl) /\ CFok cf'.
+Proof.
+  induction r as [|x r IH]; intros cf blocks C Hlt; simpl.
+  - exists cf, blocks. split; [reflexivity | exact C].
+  - assert (Hx : x < n) by (apply Hlt; left; reflexivity).
+    destruct C as [[ms [W Hr]] Hd].
+    rewrite find_in_dom by (rewrite Hd; apply in_seq; lia).
+    destruct (find_node_ok cf x W) as (_ & D1 & W1 & R1).
+    destruct (find_node cf x) as [b cf1] eqn:E. cbn [fst snd] in *.
+    apply IH.
+    + split; [|congruence]. exists ms. split; [exact W1|]. intros a c. rewrite !R1. apply Hr.
+    + intros v Hv. apply Hlt. right. exact Hv.
+Qed.
+
+End CF.
+
+(* ---------------------------------------------------------------------------------------------- *)
+(* 6. bridging loop, one outer iteration, the helper loop                                          *)
+
+Section Loops.
+Variables (reads : list read) (n k : nat).
+Hypothesis Hwf : wf_reads n reads = true.
+Variable D : nat -> Prop.
+Hypothesis HD : forall r, D r -> r < length reads.
+
+Notation GI := (GInv reads n k D).
+
+Lemma bridge_step_ok x bs ri :
+  GI x (cov (b_st bs)) (sel (b_st bs)) (und (b_st bs)) -> CFok n (b_cf bs) -> In ri (und (b_st bs)) ->
+  exists bs' d, bridge_step reads k bs ri = inl (bs', d) /\
+    GI x (cov (b_st bs')) (sel (b_st bs')) (und (b_st bs')) /\ CFok n (b_cf bs') /\
+    (forall y, In y (und (b_st bs')) -> In y (und (b_st bs))) /\
+    (forall y, y <> ri -> In y (und (b_st bs)) -> In y (und (b_st bs'))) /\
+    length (und (b_st bs')) <= length (und (b_st bs)).
+Proof.
+  intros G C Hin. unfold bridge_step.
+  assert (Dri : D ri) by (apply (gi_dom _ _ _ _ _ _ _ _ G); right; exact Hin).
+  pose proof (wf_reads_get n reads ri Hwf (HD ri Dri)) as W.
+  destruct (find_blocks_ok n (get_read reads ri) (b_cf bs) [] C) as (cf1 & bl & E & C1).
+  { apply wf_read_spec in W. apply W. }
+  rewrite E. fold (span_b reads ri) (span_e reads ri).
+  destruct (k <=? max_coverage_in_range (cov (b_st bs)) (span_b reads ri) (span_e reads ri)) eqn:Ek.
+  - apply Nat.leb_le in Ek. eexists. eexists. split; [reflexivity|]. cbn [b_st b_cf cov sel und].
+    split; [|split; [exact C1|split; [|split]]].
+    + apply (dec_violates reads n k D x _ _ (und (b_st bs)) _ ri G Ek).
+      * apply set_remove_NoDup. apply (gi_nd_und _ _ _ _ _ _ _ _ G).
+      * intro y. apply set_remove_In.
+    + intros y Hy. apply set_remove_In in Hy. tauto.
+    + intros y Hne Hy. apply set_remove_In. tauto.
+    + apply filter_length_le.
+  - apply Nat.leb_gt in Ek. destruct (length bl <? 2).
+    + eexists. eexists. split; [reflexivity|]. cbn [b_st b_cf].
+      split; [exact G|]. split; [exact C1|]. split; [auto|]. split; [auto|lia].
+    + destruct (merge_read_ok n cf1 (get_read reads ri) C1 W) as (cf2 & E2 & C2).
+      rewrite E2. eexists. eexists. split; [reflexivity|]. cbn [b_st b_cf cov sel und].
+      split; [|split; [exact C2|split; [|split]]].
+      * apply (dec_selected reads n k Hwf D HD x _ _ (und (b_st bs)) _ ri G Hin Ek).
+        -- apply set_remove_NoDup. apply (gi_nd_und _ _ _ _ _ _ _ _ G).
+        -- intro y. apply set_remove_In.
+      * intros y Hy. apply set_remove_In in Hy. tauto.
+      * intros y Hne Hy. apply set_remove_In. tauto.
+      * apply filter_length_le.
+Qed.
+
+Lemma bridge_run_ok x : forall order bs,
+  GI x (cov (b_st bs)) (sel (b_st bs)) (und (b_st bs)) -> CFok n (b_cf bs) -> NoDup order ->
+  (forall y, In y order -> In y (und (b_st bs))) ->
+  exists bs' ds, bridge_run reads k bs order = inl (bs', ds) /\
+    GI x (cov (b_st bs')) (sel (b_st bs')) (und (b_st bs')) /\
+    length (und (b_st bs')) <= length (und (b_st bs)).
+Proof.
+  induction order as [|ri rest IH]; intros bs G C ND Hord; simpl.
+  - exists bs, []. split; [reflexivity|]. split; [exact G | lia].
+  - destruct (bridge_step_ok x bs ri G C (Hord ri (or_introl eq_refl)))
+      as (bs1 & d & E & G1 & C1 & _ & Hkeep & Hlen).
+    rewrite E. inversion ND as [|a l Hnotin NDrest]; subst.
+    destruct (IH bs1 G1 C1 NDrest) as (bs2 & ds & E2 & G2 & Hlen2).
+    { intros y Hy. apply Hkeep; [intros ->; apply Hnotin; exact Hy | apply Hord; right; exact Hy]. }
+    rewrite E2. eexists. eexists. split; [reflexivity|]. split; [exact G2 | lia].
+Qed.
+
+Lemma set_diff2_length_lt (l a b : list nat) z :
+  In z l -> In z a \/ In z b -> length (set_diff (set_diff l a) b) < length l.
+Proof.
+  intros Hl Hab. unfold set_diff.
+  destruct (in_dec Nat.eq_dec z a) as [Ha | Ha].
+  - pose proof (filter_length_lt (fun y => negb (mem y a)) l z Hl) as H1.
+    assert (E : negb (mem z a) = false) by (apply negb_false_iff, mem_In; exact Ha).
+    specialize (H1 E). pose proof (filter_length_le (fun y => negb (mem y b)) (filter (fun y => negb (mem y a)) l)). lia.
+  - destruct Hab as [Ha' | Hb]; [contradiction|].
+    assert (Hin : In z (filter (fun y => negb (mem y a)) l)).
+    { apply filter_In. split; [exact Hl|]. apply negb_true_iff, mem_false. exact Ha. }
+    pose proof (filter_length_lt (fun y => negb (mem y b)) _ z Hin) as H1.
+    assert (E : negb (mem z b) = false) by (apply negb_false_iff, mem_In; exact Hb).
+    specialize (H1 E). pose proof (filter_length_le (fun y => negb (mem y a)) l). lia.
+Qed.
+
+(* One outer iteration: either the oracle is not a legal pop order, or the iteration succeeds (no
+   exception out of the component finder), keeps the invariant and decides at least one read. *)
+Lemma iteration_ok x bridging s so bo :
+  GI x (cov s) (sel s) (und s) ->
+  iteration reads n k bridging s so bo = inr IllegalOrder \/
+  exists s1 item, iteration reads n k bridging s so bo = inl (s1, item) /\
+    GI x (cov s1) (sel s1) (und s1) /\ (und s <> [] -> length (und s1) < length (und s)) /\
+    length (und s1) <= length (und s).
+Proof.
+  intro G. unfold iteration.
+  destruct (is_perm so (und s)) eqn:Ep; cbn [negb]; [|left; reflexivity].
+  apply is_perm_spec in Ep. destruct Ep as [NDso Hso].
+  pose proof (gi_nd_und _ _ _ _ _ _ _ _ G) as NDu.
+  set (ss0 := SliceSt (cov s) [] [] []).
+  assert (G0 : SInv reads n k D (sel s) (und s) x ss0).
+  { unfold SInv, eff_sel, eff_und, ss0. cbn [s_cov s_in s_viol]. rewrite !set_diff_nil. exact G. }
+  assert (Hord : forall y, In y so -> In y (und s) /\ ~ In y (s_in ss0) /\ ~ In y (s_viol ss0)).
+  { intros y Hy. split; [apply Hso; exact Hy|]. split; intros []. }
+  destruct (slice_run reads k ss0 so) as [ss sdec] eqn:Es.
+  destruct (slice_run_inv reads n k Hwf D HD (sel s) (und s) x so ss0 ss sdec G0 NDu NDso Hord Es)
+    as (G1 & _ & _ & Hsub).
+  assert (Hin_b : forall ri, In ri (s_in ss) -> ri < length reads).
+  { intros ri Hri. apply HD. apply (gi_dom _ _ _ _ _ _ _ _ G). right.
+    destruct (Hsub ri (or_introl Hri)) as [H | [[] | []]]. apply Hso. exact H. }
+  destruct (merge_reads_ok reads n Hwf (s_in ss) (uf_init (seq 0 n)) (CFok_init n) Hin_b) as (cf & Ecf & Ccf).
+  rewrite Ecf.
+  set (s1 := St (s_cov ss) (set_union (sel s) (s_in ss)) (set_diff (set_diff (und s) (s_in ss)) (s_viol ss))).
+  assert (Hlt : und s <> [] -> length (und s1) < length (und s)).
+  { intro Hne. destruct so as [|r0 rest].
+    - destruct (und s) as [|u us]; [congruence|]. exfalso. apply (Hso u). left. reflexivity.
+    - assert (Hr0 : In r0 (und s)) by (apply Hso; left; reflexivity).
+      assert (Dr0 : D r0) by (apply (gi_dom _ _ _ _ _ _ _ _ G); right; exact Hr0).
+      pose proof (slice_run_first reads n k Hwf D HD (sel s) (und s) x r0 rest ss0 ss sdec
+                    G0 NDu NDso Hord eq_refl Dr0 Es) as Hdec.
+      unfold s1. cbn [und]. apply (set_diff2_length_lt _ _ _ r0 Hr0 Hdec). }
+  assert (Hle : length (und s1) <= length (und s)).
+  { unfold s1, set_diff. cbn [und].
+    pose proof (filter_length_le (fun y => negb (mem y (s_viol ss))) (filter (fun y => negb (mem y (s_in ss))) (und s))).
+    pose proof (filter_length_le (fun y => negb (mem y (s_in ss))) (und s)). lia. }
+  destruct bridging.
+  - destruct (is_perm bo (und s1)) eqn:Epb; cbn [negb]; [|left; reflexivity].
+    apply is_perm_spec in Epb. destruct Epb as [NDbo Hbo].
+    destruct (bridge_run_ok x bo (BridgeSt s1 cf) G1 Ccf NDbo) as (bs & bdec & Eb & Gb & Hlb).
+    { intros y Hy. apply Hbo. exact Hy. }
+    rewrite Eb. right. eexists. eexists. split; [reflexivity|].
+    cbn [b_st] in Hlb. split; [exact Gb|]. split; [intro Hne; specialize (Hlt Hne); lia | lia].
+  - destruct bo; [|left; reflexivity].
+    right. eexists. eexists. split; [reflexivity|]. split; [exact G1|]. split; assumption.
+Qed.
+
+(* The helper loop: never an exception; keeps the invariant; an oracle with at least as many
+   iterations as there are undecided reads drives it to completion. *)
+Lemma helper_ok x bridging : forall o s,
+  GI x (cov s) (sel s) (und s) ->
+  helper reads n k bridging o s = inr IllegalOrder \/
+  exists s2 items rest, helper reads n k bridging o s = inl (s2, items, rest) /\
+    GI x (cov s2) (sel s2) (und s2) /\
+    (length (und s) <= length o -> und s2 = [] /\ length o <= length rest + length (und s)).
+Proof.
+  induction o as [|[so bo] o' IH]; intros s G; cbn [helper].
+  - right. exists s, [], []. split; [destruct (und s); reflexivity|]. split; [exact G|].
+    intro H. simpl in H. destruct (und s); simpl in *; [split; [reflexivity | lia] | lia].
+  - destruct (und s) as [|u us] eqn:Eu; rewrite <- Eu in G.
+    + right. exists s, [], ((so, bo) :: o'). split; [reflexivity|]. split; [exact G|].
+      intros _. split; [exact Eu | lia].
+    + destruct (iteration_ok x bridging s so bo G) as [E | (s1 & item & E & G1 & Hlt & _)].
+      * left. rewrite E. reflexivity.
+      * rewrite E. destruct (IH s1 G1) as [E2 | (s2 & items & rest & E2 & G2 & Hdone)].
+        -- left. rewrite E2. reflexivity.
+        -- right. rewrite E2. exists s2, (item :: items), rest. split; [reflexivity|]. split; [exact G2|].
+           intro Hlen. assert (Hne : und s <> []) by (rewrite Eu; congruence).
+           specialize (Hlt Hne). rewrite Eu in Hlt. simpl in Hlt, Hlen.
+           destruct Hdone as [H1 H2]; [lia|]. split; [exact H1 | simpl; lia].
+Qed.
+
+End Loops.
+
+(* ---------------------------------------------------------------------------------------------- *)
+(* 7. readselection                                                                                *)
+
+Lemma GInv_weaken reads n k D x c sl ud : GInv reads n k D x c sl ud -> GInv reads n k D false c sl ud.
+Proof. intro G. destruct G. constructor; try assumption. discriminate. Qed.
+
+Definition preferred_of (reads : list read) (pref : list bool) : list nat :=
+  filter (fun ri => nth ri pref false) (seq 0 (length reads)).
+
+(* is the monitor exact (coverage = number of selected spanning reads)? always for the repaired rule,
+   for the current rule only when no read is preferred *)
+Definition xflag (rule : pref_rule) (reads : list read) (pref : list bool) : bool :=
+  match rule with PrefRepaired => true | PrefCurrent => is_nil (preferred_of reads pref) end.
+
+Lemma preferred_NoDup reads pref : NoDup (preferred_of reads pref).
+Proof. apply NoDup_filter_nat, seq_NoDup. Qed.
+
+Lemma preferred_bound reads pref r : In r (preferred_of reads pref) -> r < length reads.
+Proof. unfold preferred_of. rewrite filter_In, in_seq. lia. Qed.
+
+Lemma preferred_length reads pref : length (preferred_of reads pref) <= length reads.
+Proof.
+  unfold preferred_of. pose proof (filter_length_le (fun ri => nth ri pref false) (seq 0 (length reads))) as H.
+  rewrite seq_length in H. exact H.
+Qed.
+
+Lemma GInv_start reads n k (D : nat -> Prop) ud :
+  NoDup ud -> (forall r, In r ud <-> D r) -> GInv reads n k D true (cov_init n) [] ud.
+Proof.
+  intros ND HD. constructor.
+  - unfold cov_init. apply repeat_length.
+  - intro i. rewrite cov_init_cv. lia.
+  - intro i. rewrite cov_init_cv. rewrite sc_nil. lia.
+  - constructor.
+  - exact ND.
+  - intros r [[] | H]. apply HD. exact H.
+  - intros r Hr. right. left. apply HD. exact Hr.
+  - intros _. split; [intro i; rewrite cov_init_cv; reflexivity | intros r []].
+Qed.
+
+Lemma second_phase_length rule reads pref :
+  length (second_phase_undecided rule (seq 0 (length reads)) (preferred_of reads pref)) <= length reads.
+Proof.
+  destruct rule; simpl.
+  - rewrite seq_length. lia.
+  - unfold set_diff. pose proof (filter_length_le (fun y => negb (mem y (preferred_of reads pref))) (seq 0 (length reads))) as H.
+    rewrite seq_length in H. exact H.
+Qed.
+
+(* hand-over from the preferred phase (finished: nothing undecided) to the main phase *)
+Lemma GInv_second_phase rule reads n k pref c sl :
+  GInv reads n k (fun r => In r (preferred_of reads pref)) true c sl [] ->
+  GInv reads n k (fun r => r < length reads) (match rule with PrefRepaired => true | PrefCurrent => false end)
+       c sl (second_phase_undecided rule (seq 0 (length reads)) (preferred_of reads pref)).
+Proof.
+  intro G. destruct G. constructor; try assumption.
+  - destruct rule; simpl; [apply seq_NoDup | apply set_diff_NoDup, seq_NoDup].
+  - intros r [H | H].
+    + apply preferred_bound with pref. apply gi_dom0. left. exact H.
+    + destruct rule; simpl in H; [|apply set_diff_In in H; destruct H as [H _]]; apply in_seq in H; lia.
+  - intros r Hr. destruct rule; simpl.
+    + right. left. apply in_seq. lia.
+    + destruct (in_dec Nat.eq_dec r (preferred_of reads pref)) as [Hp | Hp].
+      * destruct (gi_dec0 r Hp) as [H | [[] | H]]; auto.
+      * right. left. apply set_diff_In. split; [apply in_seq; lia | exact Hp].
+  - destruct rule; [discriminate|]. intros _. destruct (gi_exact0 eq_refl) as [H1 _]. split; [exact H1|].
+    intros r Hr Hu. simpl in Hu. apply set_diff_In in Hu. destruct Hu as [_ Hu]. apply Hu.
+    apply gi_dom0. left. exact Hr.
+Qed.
+
+Lemma wf_reads_len2 n reads : wf_reads n reads = true -> forallb (fun r => 2 <=? length r) reads = true.
+Proof.
+  unfold wf_reads. rewrite !forallb_forall. intros H r Hr. specialize (H r Hr).
+  apply wf_read_spec in H. apply Nat.leb_le. apply H.
+Qed.
+
+Lemma is_nil_true {A} (l : list A) : is_nil l = true <-> l = [].
+Proof. destruct l; simpl; split; congruence. Qed.
+
+(* The central statement about the model: for well-formed reads and ANY oracle, readselection either
+   reports that the oracle was not a legal pop order, or returns a state that satisfies the invariant. *)
+Lemma readselection_spec rule reads pref n k bridging o :
+  wf_reads n reads = true ->
+  readselection rule reads pref n k bridging o = inr IllegalOrder \/
+  exists r, readselection rule reads pref n k bridging o = inl r /\
+    (exists D : nat -> Prop, (forall q, D q -> q < length reads) /\
+        GInv reads n k D (xflag rule reads pref) (cov (r_state r)) (sel (r_state r)) (und (r_state r)) /\
+        (r_complete r = true -> forall q, q < length reads -> D q)) /\
+    (r_complete r = true -> und (r_state r) = []) /\
+    (2 * length reads <= length o -> r_complete r = true).
+Proof.
+  intro Hwf. unfold readselection. rewrite (wf_reads_len2 n reads Hwf). cbn [negb].
+  fold (preferred_of reads pref).
+  set (D1 := fun r => In r (preferred_of reads pref)).
+  set (D2 := fun r => r < length reads).
+  assert (HD1 : forall q, D1 q -> q < length reads) by (intros q Hq; apply preferred_bound with pref; exact Hq).
+  assert (HD2 : forall q, D2 q -> q < length reads) by (intros q Hq; exact Hq).
+  destruct (is_nil (preferred_of reads pref)) eqn:Enil.
+  - (* no preferred read: one phase over all reads *)
+    assert (G0 : GInv reads n k D2 true (cov_init n) [] (seq 0 (length reads))).
+    { apply GInv_start; [apply seq_NoDup|]. intro r. unfold D2. rewrite in_seq. lia. }
+    destruct (helper_ok reads n k Hwf D2 HD2 true bridging o (St (cov_init n) [] (seq 0 (length reads))) G0)
+      as [E | (s2 & t2 & rest & E & G2 & Hdone)].
+    + left. rewrite E. reflexivity.
+    + right. rewrite E. eexists. split; [reflexivity|]. cbn [r_state r_complete].
+      split; [|split].
+      * exists D2. split; [exact HD2|]. split.
+        -- unfold xflag. rewrite Enil. destruct rule; exact G2.
+        -- intros _ q Hq. exact Hq.
+      * apply is_nil_true.
+      * intro Hlen. apply is_nil_true. apply Hdone. cbn [und]. rewrite seq_length. lia.
+  - (* preferred phase, then the main phase *)
+    assert (G0 : GInv reads n k D1 true (cov_init n) [] (preferred_of reads pref)).
+    { apply GInv_start; [apply preferred_NoDup|]. intro r. reflexivity. }
+    destruct (helper_ok reads n k Hwf D1 HD1 true bridging o (St (cov_init n) [] (preferred_of reads pref)) G0)
+      as [E | (s1 & t1 & o2 & E & G1 & Hdone1)].
+    + left. rewrite E. reflexivity.
+    + rewrite E. destruct (is_nil (und s1)) eqn:En1; cbn [negb].
+      * apply is_nil_true in En1.
+        set (x2 := match rule with PrefRepaired => true | PrefCurrent => false end).
+        assert (G1' : GInv reads n k D2 x2 (cov s1) (sel s1)
+                         (second_phase_undecided rule (seq 0 (length reads)) (preferred_of reads pref))).
+        { apply GInv_second_phase. rewrite <- En1. exact G1. }
+        destruct (helper_ok reads n k Hwf D2 HD2 x2 bridging o2
+                    (St (cov s1) (sel s1) (second_phase_undecided rule (seq 0 (length reads)) (preferred_of reads pref))) G1')
+          as [E2 | (s2 & t2 & rest & E2 & G2 & Hdone2)].
+        -- left. rewrite E2. reflexivity.
+        -- right. rewrite E2. eexists. split; [reflexivity|]. cbn [r_state r_complete].
+           split; [|split].
+           ++ exists D2. split; [exact HD2|]. split.
+              ** unfold xflag. rewrite Enil. destruct rule; exact G2.
+              ** intros _ q Hq. exact Hq.
+           ++ apply is_nil_true.
+           ++ intro Hlen. apply is_nil_true. apply Hdone2. cbn [und].
+              pose proof (second_phase_length rule reads pref).
+              pose proof (preferred_length reads pref).
+              destruct Hdone1 as [_ H1]; [cbn [und]; lia|]. cbn [und] in H1. lia.
+      * right. eexists. split; [reflexivity|]. cbn [r_state r_complete].
+        split; [|split].
+        -- exists D1. split; [exact HD1|]. split.
+           ++ unfold xflag. rewrite Enil. destruct rule; [apply GInv_weaken with true|]; exact G1.
+           ++ discriminate.
+        -- discriminate.
+        -- intro Hlen. exfalso. pose proof (preferred_length reads pref).
+           destruct Hdone1 as [H1 _]; [cbn [und]; lia|]. rewrite H1 in En1. discriminate.
+Qed.
+
+(* ---------------------------------------------------------------------------------------------- *)
+(* 8. the C07 statements about the model                                                           *)
+
+Definition no_preferred (reads : list read) (pref : list bool) : Prop :=
+  forall ri, ri < length reads -> nth ri pref false = false.
+
+Lemma no_preferred_nil reads pref : no_preferred reads pref -> preferred_of reads pref = [].
+Proof.
+  intro H. unfold preferred_of.
+  assert (F : forall l, (forall ri, In ri l -> ri < length reads) -> filter (fun ri => nth ri pref false) l = []).
+  { induction l as [|a l IH]; intro Hl; simpl; [reflexivity|].
+    rewrite (H a) by (apply Hl; left; reflexivity). apply IH. intros ri Hri. apply Hl. right. exact Hri. }
+  apply F. intros ri Hri. apply in_seq in Hri. lia.
+Qed.
+
+Lemma xflag_true rule reads pref : rule = PrefRepaired \/ no_preferred reads pref -> xflag rule reads pref = true.
+Proof.
+  intros [-> | H]; [reflexivity|]. unfold xflag. rewrite (no_preferred_nil _ _ H). destruct rule; reflexivity.
+Qed.
+
+Lemma readselection_inl rule reads pref n k bridging o r :
+  wf_reads n reads = true -> readselection rule reads pref n k bridging o = inl r ->
+  (exists D : nat -> Prop, (forall q, D q -> q < length reads) /\
+      GInv reads n k D (xflag rule reads pref) (cov (r_state r)) (sel (r_state r)) (und (r_state r)) /\
+      (r_complete r = true -> forall q, q < length reads -> D q)) /\
+  (r_complete r = true -> und (r_state r) = []) /\
+  (2 * length reads <= length o -> r_complete r = true).
+Proof.
+  intros Hwf E. destruct (readselection_spec rule reads pref n k bridging o Hwf) as [E' | (r' & E' & H)].
+  - congruence.
+  - rewrite E in E'. injection E' as <-. exact H.
+Qed.
+
+Theorem cap_invariant : forall rule reads pref n k bridging o r,
+  wf_reads n reads = true -> readselection rule reads pref n k bridging o = inl r ->
+  length (cov (r_state r)) = n /\
+  (forall i, span_count reads (sel (r_state r)) i <= nth i (cov (r_state r)) 0 /\
+             nth i (cov (r_state r)) 0 <= k) /\
+  cap_ok reads n k (sel (r_state r)) = true.
+Proof.
+  intros rule reads pref n k bridging o r Hwf E.
+  destruct (readselection_inl _ _ _ _ _ _ _ _ Hwf E) as [(D & HD & G & _) _]. destruct G.
+  split; [exact gi_len0|]. split.
+  - intro i. split; [apply gi_cnt0 | apply gi_cap0].
+  - unfold cap_ok. apply forallb_forall. intros i _. apply Nat.leb_le.
+    pose proof (gi_cnt0 i). pose proof (gi_cap0 i). unfold sc, cv in *. lia.
+Qed.
+
+Theorem cap_exact : forall rule reads pref n k bridging o r,
+  wf_reads n reads = true -> rule = PrefRepaired \/ no_preferred reads pref ->
+  readselection rule reads pref n k bridging o = inl r ->
+  forall i, nth i (cov (r_state r)) 0 = span_count reads (sel (r_state r)) i.
+Proof.
+  intros rule reads pref n k bridging o r Hwf Hx E.
+  destruct (readselection_inl _ _ _ _ _ _ _ _ Hwf E) as [(D & HD & G & _) _]. destruct G.
+  rewrite (xflag_true _ _ _ Hx) in gi_exact0. destruct (gi_exact0 eq_refl) as [H _].
+  intro i. symmetry. apply H.
+Qed.
+
+Theorem selected_subset : forall rule reads pref n k bridging o r,
+  wf_reads n reads = true -> readselection rule reads pref n k bridging o = inl r ->
+  NoDup (sel (r_state r)) /\ (forall ri, In ri (sel (r_state r)) -> ri < length reads) /\
+  subset_ok reads (sel (r_state r)) = true.
+Proof.
+  intros rule reads pref n k bridging o r Hwf E.
+  destruct (readselection_inl _ _ _ _ _ _ _ _ Hwf E) as [(D & HD & G & _) _]. destruct G.
+  assert (Hb : forall ri, In ri (sel (r_state r)) -> ri < length reads).
+  { intros ri Hri. apply HD, gi_dom0. left. exact Hri. }
+  split; [exact gi_nd_sel0|]. split; [exact Hb|].
+  unfold subset_ok. apply andb_true_iff. split; [apply nodupb_NoDup; exact gi_nd_sel0|].
+  apply forallb_forall. intros ri Hri. apply Nat.ltb_lt. apply Hb. exact Hri.
+Qed.
+
+Theorem undecided_partition : forall rule reads pref n k bridging o r,
+  wf_reads n reads = true -> readselection rule reads pref n k bridging o = inl r ->
+  NoDup (und (r_state r)) /\ (forall ri, In ri (und (r_state r)) -> ri < length reads) /\
+  (rule = PrefRepaired \/ no_preferred reads pref ->
+   forall ri, In ri (sel (r_state r)) -> ~ In ri (und (r_state r))).
+Proof.
+  intros rule reads pref n k bridging o r Hwf E.
+  destruct (readselection_inl _ _ _ _ _ _ _ _ Hwf E) as [(D & HD & G & _) _]. destruct G.
+  split; [exact gi_nd_und0|]. split.
+  - intros ri Hri. apply HD, gi_dom0. right. exact Hri.
+  - intro Hx. rewrite (xflag_true _ _ _ Hx) in gi_exact0. apply (gi_exact0 eq_refl).
+Qed.
+
+(* every outer iteration started in a state reached by any run decides at least one read *)
+Theorem progress : forall rule reads pref n k bridging o r so bo s1 item,
+  wf_reads n reads = true -> readselection rule reads pref n k bridging o = inl r ->
+  und (r_state r) <> [] ->
+  iteration reads n k bridging (r_state r) so bo = inl (s1, item) ->
+  length (und s1) < length (und (r_state r)).
+Proof.
+  intros rule reads pref n k bridging o r so bo s1 item Hwf E Hne Hit.
+  destruct (readselection_inl _ _ _ _ _ _ _ _ Hwf E) as [(D & HD & G & _) _].
+  destruct (iteration_ok reads n k Hwf D HD _ bridging (r_state r) so bo G) as [E' | (s1' & item' & E' & _ & Hlt & _)].
+  - congruence.
+  - rewrite Hit in E'. injection E' as <- <-. apply Hlt. exact Hne.
+Qed.
+
+(* the loops terminate: 2 * |reads| outer iterations always suffice, and no exception is possible *)
+Theorem terminates : forall rule reads pref n k bridging o,
+  wf_reads n reads = true ->
+  (forall e, readselection rule reads pref n k bridging o = inr e -> e = IllegalOrder) /\
+  (forall r, readselection rule reads pref n k bridging o = inl r ->
+     (2 * length reads <= length o -> r_complete r = true) /\
+     (r_complete r = true -> und (r_state r) = [])).
+Proof.
+  intros rule reads pref n k bridging o Hwf. split.
+  - intros e E. destruct (readselection_spec rule reads pref n k bridging o Hwf) as [E' | (r' & E' & _)]; congruence.
+  - intros r E. destruct (readselection_inl _ _ _ _ _ _ _ _ Hwf E) as (_ & H1 & H2). split; assumption.
+Qed.
+
+Theorem maximal : forall rule reads pref n k bridging o r,
+  wf_reads n reads = true -> 1 <= k -> rule = PrefRepaired \/ no_preferred reads pref ->
+  readselection rule reads pref n k bridging o = inl r -> r_complete r = true ->
+  maximal_ok reads n k (sel (r_state r)) = true /\
+  forall ri, ri < length reads -> ~ In ri (sel (r_state r)) ->
+    exists i, i < n /\ spans (get_read reads ri) i = true /\ k <= span_count reads (sel (r_state r)) i.
+Proof.
+  intros rule reads pref n k bridging o r Hwf Hk Hx E Hc.
+  destruct (readselection_inl _ _ _ _ _ _ _ _ Hwf E) as [(D & HD & G & HDall) [Hund _]].
+  specialize (HDall Hc). specialize (Hund Hc). destruct G.
+  rewrite (xflag_true _ _ _ Hx) in gi_exact0. destruct (gi_exact0 eq_refl) as [Hex _].
+  assert (W : forall ri, ri < length reads -> ~ In ri (sel (r_state r)) ->
+     exists i, i < n /\ spans (get_read reads ri) i = true /\ k <= span_count reads (sel (r_state r)) i).
+  { intros ri Hri Hns. destruct (gi_dec0 ri (HDall ri Hri)) as [H | [H | H]]; [contradiction | rewrite Hund in H; destruct H |].
+    destruct (max_range_witness _ _ _ k Hk H) as [i (H1 & H2 & H3 & H4)].
+    exists i. split; [lia|]. split.
+    - apply spans_range. unfold span_b, span_e in *. lia.
+    - rewrite <- Hex in H4. exact H4. }
+  split; [|exact W].
+  unfold maximal_ok. apply forallb_forall. intros ri Hri. apply in_seq in Hri.
+  destruct (mem ri (sel (r_state r))) eqn:Em; [reflexivity|]. apply mem_false in Em.
+  destruct (W ri ltac:(lia) Em) as [i (H1 & H2 & H3)].
+  cbn [orb]. unfold blocked. apply existsb_exists. exists i. split; [apply in_seq; lia|].
+  rewrite H2. apply Nat.leb_le in H3. rewrite H3. reflexivity.
+Qed.
+
+(* the current code (PrefCurrent) with a preferred read: the result is complete but not maximal *)
+Theorem maximal_current_refuted :
+  exists reads pref n k bridging o r,
+    wf_reads n reads = true /\ 1 <= k /\
+    readselection PrefCurrent reads pref n k bridging o = inl r /\ r_complete r = true /\
+    maximal_ok reads n k (sel (r_state r)) = false /\
+    (* and the repaired rule on the same input with the same kind of order is maximal *)
+    exists o' r', readselection PrefRepaired reads pref n k bridging o' = inl r' /\ r_complete r' = true /\
+                  maximal_ok reads n k (sel (r_state r')) = true.
+Proof.
+  exists [[0; 1]; [0; 1]; [0; 1]], [true; false; false], 2, 2, true,
+         [([0], []); ([0; 2; 1], [])].
+  eexists. split; [reflexivity|]. split; [lia|]. split; [vm_compute; reflexivity|].
+  split; [reflexivity|]. split; [vm_compute; reflexivity|].
+  exists [([0], []); ([2; 1], [])]. eexists. split; [vm_compute; reflexivity|]. split; reflexivity.
+Qed.
+
+(* ---------------------------------------------------------------------------------------------- *)
+(* 9. family level: the per-sample caps add up                                                     *)
+
+Lemma filter_length_mono_gen {A} (P Q : A -> bool) (l : list A) :
+  (forall z, In z l -> P z = true -> Q z = true) -> length (filter P l) <= length (filter Q l).
+Proof.
+  induction l as [|a l IH]; intro H; simpl; [lia|].
+  assert (IH' : length (filter P l) <= length (filter Q l)).
+  { apply IH. intros z Hz. apply H. right. exact Hz. }
+  destruct (P a) eqn:E.
+  - rewrite (H a (or_introl eq_refl) E). simpl. lia.
+  - destruct (Q a); simpl; lia.
+Qed.
+
+(* among the reads spanning q there is one whose first position is maximal *)
+Lemma max_first_exists (rs : list zread) (q : Z) :
+  (exists r, In r rs /\ zspans r q = true) ->
+  exists r0, In r0 rs /\ zspans r0 q = true /\
+             forall r, In r rs -> zspans r q = true -> (zfirst r <= zfirst r0)%Z.
+Proof.
+  induction rs as [|a rs IH]; intros [r [Hin Hs]]; [destruct Hin|].
+  destruct (zspans a q) eqn:Ea.
+  - destruct (existsb (fun r => zspans r q) rs) eqn:Ex.
+    + apply existsb_exists in Ex. destruct (IH Ex) as [r0 (H1 & H2 & H3)].
+      destruct (Z_le_gt_dec (zfirst a) (zfirst r0)) as [Hle | Hgt].
+      * exists r0. split; [right; exact H1|]. split; [exact H2|].
+        intros r' [<- | Hr'] Hs'; [exact Hle | apply H3; assumption].
+      * exists a. split; [left; reflexivity|]. split; [exact Ea|].
+        intros r' [<- | Hr'] Hs'; [lia|]. specialize (H3 r' Hr' Hs'). lia.
+    + exists a. split; [left; reflexivity|]. split; [exact Ea|].
+      intros r' [<- | Hr'] Hs'; [lia|].
+      assert (Hc : existsb (fun r => zspans r q) rs = true) by (apply existsb_exists; exists r'; auto).
+      congruence.
+  - destruct Hin as [<- | Hin]; [congruence|].
+    destruct (IH (ex_intro _ r (conj Hin Hs))) as [r0 (H1 & H2 & H3)].
+    exists r0. split; [right; exact H1|]. split; [exact H2|].
+    intros r' [<- | Hr'] Hs'; [congruence | apply H3; assumption].
+Qed.
+
+(* A column q that need not be one of the member's own positions is spanned by no more of the
+   member's reads than some own position (the largest first position of a read spanning q). *)
+Lemma member_cap_everywhere (rs : list zread) (own : list Z) (c : nat) :
+  (forall r, In r rs -> In (zfirst r) own) ->
+  (forall p, In p own -> zspan_count rs p <= c) ->
+  forall q, zspan_count rs q <= c.
+Proof.
+  intros Hown Hcap q.
+  destruct (existsb (fun r => zspans r q) rs) eqn:Ex.
+  - apply existsb_exists in Ex. destruct (max_first_exists rs q Ex) as [r0 (H1 & H2 & H3)].
+    specialize (Hcap (zfirst r0) (Hown r0 H1)).
+    assert (Hle : zspan_count rs q <= zspan_count rs (zfirst r0)); [|lia].
+    unfold zspan_count. apply filter_length_mono_gen. intros r Hr Hs.
+    specialize (H3 r Hr Hs). unfold zspans in *.
+    apply andb_true_iff in Hs. destruct Hs as [Ha Hb]. apply Z.leb_le in Ha, Hb.
+    apply andb_true_iff in H2. destruct H2 as [Hc Hd]. apply Z.leb_le in Hc, Hd.
+    apply andb_true_iff. split; apply Z.leb_le; lia.
+  - assert (E : zspan_count rs q = 0); [|lia].
+    unfold zspan_count.
+    assert (F : forall l, existsb (fun r => zspans r q) l = false -> filter (fun r => zspans r q) l = []).
+    { induction l as [|a l IH]; simpl; [reflexivity|]. intro H. apply orb_false_iff in H.
+      destruct H as [Ha Hl]. rewrite Ha. apply IH. exact Hl. }
+    rewrite (F rs Ex). reflexivity.
+Qed.
+
+Lemma per_sample_cap_total k f : 1 <= f -> f <= k -> f * per_sample_cap k f <= k.
+Proof.
+  intros H1 H2. unfold per_sample_cap.
+  assert (Hd : 1 <= k / f) by (apply Nat.div_le_lower_bound; lia).
+  rewrite Nat.max_r by lia. apply Nat.mul_div_le. lia.
+Qed.
+
+Theorem family_total : forall (k : nat) (members : list (list zread * list Z)),
+  length members <= k ->
+  (forall rs own, In (rs, own) members ->
+     (forall r, In r rs -> In (zfirst r) own) /\
+     (forall p, In p own -> zspan_count rs p <= per_sample_cap k (length members))) ->
+  forall q : Z, family_span_count (map fst members) q <= k.
+Proof.
+  intros k members Hf Hm q.
+  set (c := per_sample_cap k (length members)) in *.
+  assert (Hsum : forall ms : list (list zread * list Z), (forall m, In m ms -> In m members) ->
+            family_span_count (map fst ms) q <= length ms * c).
+  { induction ms as [|[rs own] ms IH]; intro Hin; simpl; [lia|].
+    destruct (Hm rs own (Hin _ (or_introl eq_refl))) as [Ho Hc].
+    pose proof (member_cap_everywhere rs own c Ho Hc q).
+    assert (family_span_count (map fst ms) q <= length ms * c) by (apply IH; intros m Hm'; apply Hin; right; exact Hm').
+    lia. }
+  specialize (Hsum members (fun m H => H)).
+  destruct members as [|m ms]; [simpl in *; lia|].
+  pose proof (per_sample_cap_total k (length (m :: ms)) ltac:(simpl; lia) Hf). fold c in H. lia.
+Qed.
